@@ -284,6 +284,61 @@ def r1_4(ctx):
     ctx.floor(rid, n, 240, "assertions, call sites and description reads with lazy-state obligations")
 
 
+R17_EXC = {
+}
+
+
+def r1_7(ctx):
+    """Friends that resize the row vector of a system by hand re-establish the pending-row index."""
+    from rules.c14 import units_alloc
+    rid = "R1.7"
+    ctx.rule(rid, "pending index follows manual resizes: `index_first_pending` separates the rows already integrated from the pending ones (when nothing is pending it equals the number of rows). Code outside Linear_System that changes the number of rows of a constraint / generator / grid-generator system by hand (`X.sys.rows.resize / push_back / pop_back / erase`) re-establishes the index for X on every path from the change to the exit — X.unset_pending_rows(), X.set_index_first_pending_row(..), an assignment to X.sys.index_first_pending — or X is a local that is swapped / assigned wholesale afterwards; otherwise rows are silently treated as pending (or pending rows as integrated) by the next incremental conversion")
+    fx = ctx.extract(units_alloc())
+    n = 0
+    seen = set()
+    for f in fx.functions:
+        if not f.cfg or f.clsn in ("Linear_System", "Swapping_Vector") or (f.relfile, f.line) in seen:
+            continue
+        evs = []
+        for c in f.calls():
+            if c["k"] != "mcall" or f.call_name(c) not in ("resize", "push_back", "pop_back", "erase", "insert", "clear"):
+                continue
+            o = f.call_obj(c)
+            if o is None:
+                continue
+            t = f.text(o).replace(" ", "")
+            if not t.endswith(".sys.rows"):
+                continue
+            evs.append((c, t[:-len(".sys.rows")]))
+        if not evs:
+            continue
+        seen.add((f.relfile, f.line))
+        for c, base in evs:
+            n += 1
+            inst = "%s::%s `%s` (line %s)" % (f.clsn or "", f.name, f.text(c)[:60], c.get("l"))
+
+            def fixed(x, base=base):
+                if x["k"] == "mcall" and f.call_name(x) in ("unset_pending_rows", "set_index_first_pending_row", "clear", "m_swap", "sort_pending_and_remove_duplicates"):
+                    o = f.call_obj(x)
+                    t = f.text(o).replace(" ", "") if o is not None else ""
+                    return t in (base, base + ".sys")
+                if x["k"] == "assign":
+                    l = f.deref(x["c"][0])
+                    t = f.text(l).replace(" ", "") if l is not None else ""
+                    return t in (base + ".sys.index_first_pending", base + ".index_first_pending", base)
+                if x["k"] == "call" and f.call_name(x) == "swap":
+                    return any(f.text(a).replace(" ", "") == base for a in f.call_args(x) if a is not None)
+                return False
+            p = flow.must_follow(f, c, fixed, track_env=False)
+            if p is None:
+                ctx.ok(rid, inst, f.where(c))
+            elif (f.name, base) in R17_EXC:
+                ctx.excepted(rid, inst, f.where(c), R17_EXC[(f.name, base)])
+            else:
+                ctx.violation(rid, inst, f.where(c), "the number of rows of `%s` changes and a path reaches the exit without re-establishing its pending-row index (%s)" % (base, flow.render_path(f, p)))
+    ctx.floor(rid, n, 8, "manual resizes of system rows")
+
+
 def run(ctx):
     ctx.explanation = ("C01 lazy-status protocol of Polyhedron as flag typestate / must-follow rules over all CFG paths, and observer discipline (const_cast "
                        "allowlist); decides the protocol clauses, not conversion/minimization/query arithmetic")
@@ -295,6 +350,7 @@ def run(ctx):
     r1_4(ctx)
     r1_5(ctx, fx)
     r1_6(ctx)
+    r1_7(ctx)
     from rules import c13
     ctx.rule("R13.4", "see C13")
     c13.r13_4(ctx)
